@@ -388,8 +388,16 @@ Load_vfile(HFILEID f /* IN: file handle */)
 
         /* get the header information */
         v->vg = VPgetinfo(f, ref);
-        if (v->vg == NULL)
+        if (v->vg == NULL) {
+            /* the Vgroup cannot be read: give back the walking access element, the
+               node, the tree and this open, so that the file can still be closed */
+            VIrelease_vginstance_node(v);
+            Hendaccess(aid);
+            tbbtdfree(vf->vgtree, vdestroynode, NULL);
+            vf->vgtree = NULL;
+            vf->access--;
             HGOTO_ERROR(DFE_INTERNAL, FAIL);
+        }
 
         /* insert the vg instance in B-tree */
         tbbtdins(vf->vgtree, (void *)v, NULL);
@@ -432,8 +440,17 @@ Load_vfile(HFILEID f /* IN: file handle */)
 
         /* get the header information */
         w->vs = VSPgetinfo(f, ref);
-        if (w->vs == NULL)
+        if (w->vs == NULL) {
+            /* the Vdata cannot be read: as above */
+            VSIrelease_vsinstance_node(w);
+            Hendaccess(aid);
+            tbbtdfree(vf->vgtree, vdestroynode, NULL);
+            tbbtdfree(vf->vstree, vsdestroynode, NULL);
+            vf->vgtree = NULL;
+            vf->vstree = NULL;
+            vf->access--;
             HGOTO_ERROR(DFE_INTERNAL, FAIL);
+        }
 
         w->nattach   = 0;
         w->nvertices = 0;
